@@ -104,7 +104,7 @@ func c14Run(rc *sim.RunCtx) {
 	if warm {
 		src = strings.Replace(src, sim.PreludeCall, sim.PreludeCall+c14Warmup, 1)
 	}
-	if !strings.ContainsAny(src, "\x01\x04") {
+	if !strings.ContainsAny(src, "\x01\x04\x05") {
 		rc.Discard = "no-marked-call-site"
 		return
 	}
@@ -131,10 +131,21 @@ func c14Run(rc *sim.RunCtx) {
 	sc := &sim.StepCounter{Cap: 200000}
 	restoreHook := sc.Install()
 	defer restoreHook()
+	pollute := t.Bool(1, 3)
 	run := func(bc *ugo.Bytecode, policy int) (c08Result, *sim.World, *sim.SimPool) {
 		pool := &sim.SimPool{T: t, Always: policy}
 		restore := pool.Install()
 		defer restore()
+		if policy == 0 && pollute {
+			// history of the pool: another VM was aborted while it held pooled child VMs (nested), which then went back to the pool
+			abc := mustCompile(sim.PreludeCall+"g := func() { x := 0; for { x++ } }\nf := func() { return call(g) }\nreturn call(f)\n", mm, false)
+			aw := sim.NewWorld(&sim.WorldSpec{Name: "aborted", Pooled: []bool{true, true}, Repeat: []int{0, 0}}, nil)
+			asc := &sim.StepCounter{Cap: 5000, AbortAt: int64(30 + t.Draw(200))}
+			ar := asc.Install()
+			ugo.NewVM(abc).Run(aw.Globals)
+			ar()
+			rc.Fault("pool-user-aborted")
+		}
 		sc.Steps = 0
 		w := sim.NewWorld(ws, nil)
 		vm := ugo.NewVM(bc).SetRecover(true)
